@@ -39,6 +39,9 @@ func evalC20(c pipeCase) *Failure {
 	}
 	conn := connsim.NewPreloaded(1, connsim.Chunks(data, c.Sizes))
 	conn.Log = log
+	if c.WriteFailAfter != nil {
+		conn.WriteFailAfter = *c.WriteFailAfter
+	}
 	o := connsim.Serve(srv, conn, serveTimeout())
 	what := fmt.Sprintf("pipeline %v cut %d password %q", c.strings(), c.Cut, c.Password)
 	if o.TimedOut {
@@ -119,7 +122,7 @@ func evalC20(c pipeCase) *Failure {
 	}
 	for _, e := range events {
 		switch e.Kind {
-		case "write":
+		case "write", "write-fail":
 			r := rootOf(e.Seq)
 			if r <= 0 {
 				return failf("c20|outside-root|write", "%s: a reply was written outside a root span (event %d)", what, e.Seq)
@@ -158,9 +161,9 @@ func init() { register("c20.pipe", evalC20) }
 
 func TestC20(t *testing.T) {
 	h := newHarness(t, "C20", "the pipelines of C03/C10 (every command with valid, invalid, missing and surplus arguments, unknown commands, QUIT, composed commands, scripted handler errors) "+
-		"x end of stream at a random byte offset (request boundary or inside a request) x optionally a required password (unauthorized requests, AUTH with right/wrong password); a tracer double records span start/finish in the same "+
+		"x end of stream at a random byte offset (request boundary or inside a request) x reply writes failing after N bytes (the peer is gone) x optionally a required password (unauthorized requests, AUTH with right/wrong password); a tracer double records span start/finish in the same "+
 		"sequence-numbered log as handler calls and connection writes. Oracle: spans form a forest, each finished exactly once, children nested in parents, roots and siblings do not overlap, every write/handler call inside exactly one root, at most one reply per root. "+
-		"Non-trivial: the pipeline has a request whose outcome is not plain success (argument error, unknown, unauthorized, QUIT, cut, handler error) or a composed command. Distinct = distinct (stream, cut, password, script).")
+		"Non-trivial: the pipeline has a request whose outcome is not plain success (argument error, unknown, unauthorized, QUIT, cut, handler error, failed reply write) or a composed command. Distinct = distinct (stream, cut, password, script).")
 	defer h.Finish()
 	h.Probes()
 
@@ -189,12 +192,21 @@ func TestC20(t *testing.T) {
 			c.Cut = ends[rapid.IntRange(0, len(ends)-1).Draw(rt, "cutreq")]
 			labels["cut-at-boundary"] = true
 		}
-		nt := labels["ill-formed"] || labels["unknown-command"] || labels["quit-last"] || labels["quit-not-last"] || labels["handler-error"] || labels["composed-command"] || labels["password-required"] || labels["cut-anywhere"]
+		if rapid.IntRange(0, 4).Draw(rt, "wfail") == 0 {
+			n := rapid.IntRange(0, 40).Draw(rt, "wfailafter")
+			c.WriteFailAfter = &n
+			labels["reply-write-fails"] = true
+		}
+		nt := labels["reply-write-fails"] || labels["ill-formed"] || labels["unknown-command"] || labels["quit-last"] || labels["quit-not-last"] || labels["handler-error"] || labels["composed-command"] || labels["password-required"] || labels["cut-anywhere"]
 		var cl []string
 		for l := range labels {
 			cl = append(cl, l)
 		}
-		canon := append(append([]byte{}, data...), []byte(fmt.Sprint(c.Sizes, c.ErrCalls, c.GetMode, c.Cut, c.Password))...)
+		wf := -1
+		if c.WriteFailAfter != nil {
+			wf = *c.WriteFailAfter
+		}
+		canon := append(append([]byte{}, data...), []byte(fmt.Sprint(c.Sizes, c.ErrCalls, c.NilCalls, c.GetMode, c.Cut, c.Password, wf))...)
 		h.Col.Case(nt, canon, cl...)
 		if h.Col.WantSample() {
 			h.Col.Sample(map[string]any{"requests": c.strings(), "cut": c.Cut, "password": c.Password})
